@@ -114,4 +114,25 @@ def parseAll : Bytes → List Bool → Option (List Resp)
     | none => none
     | some (r, rest) => (parseAll rest hs).map (r :: ·)
 
+/-! ### request boundaries on a persistent connection (`handle_connection` + `Http1Body::discard_rest`) -/
+
+/-- a request as the client wrote it: head (ending in the blank line, declaring `body.length`) and body -/
+structure Rq where
+  head : Bytes
+  body : Bytes
+
+def clientStream (rs : List Rq) : Bytes := (rs.map fun r => r.head ++ r.body).flatten
+
+/-- the server: takes the head (C07: exactly the head's bytes; bytes read along with it are handed to the body),
+the handler consumes `used` bytes of the body (what it asked for plus what its reads took along), then
+`discard_rest` reads and discards `declared - used` more (`discard = false`: the behaviour before the repair, for
+comparison). Returns the heads the server parses, in order. Fuel: one unit per request. -/
+def serverHeads (discard : Bool) : List (Rq × Nat) → Bytes → List Bytes
+  | [], _ => []
+  | (r, used) :: rest, stream =>
+    let head := stream.take r.head.length
+    let afterHead := stream.drop r.head.length
+    let consumed := if discard then used + (r.body.length - used) else used
+    head :: serverHeads discard rest (afterHead.drop consumed)
+
 end Wire1
